@@ -113,13 +113,15 @@ pub fn shapes1() -> Vec<String> {
 		v.push(format!(r#"{{"type":"record","name":"X","fields":[{{"name":"f"}},{a}]}}"#));
 		v.push(format!(r#"{{"type":"enum","name":"X","symbols":[{a}]}}"#));
 	}
+	// lexically valid values that cannot be materialised (see ODD_VALUES)
+	v.extend(ODD_VALUES.iter().map(|s| s.to_string()));
 	v
 }
 
 /// A small replacement set for the quick near-miss sweep.
 pub fn shapes0() -> Vec<String> {
 	let mut v: Vec<String> = ATOMS.iter().map(|s| s.to_string()).collect();
-	v.extend(["[null]", r#"["int"]"#, r#"["int","int"]"#, r#"{"type":"int"}"#, r#"{"type":"record"}"#, r#"{"type":null}"#, r#"{"name":"X"}"#, r#"[[]]"#, r#"[{}]"#, r#"{"type":"array","items":"X"}"#, r#""a.b.E""#, r#""R""#, "1.5", "-0", "4294967296", r#""decimal""#, r#""duration""#, r#""\u0000""#].map(String::from));
+	v.extend(["[null]", r#"["int"]"#, r#"["int","int"]"#, r#"{"type":"int"}"#, r#"{"type":"record"}"#, r#"{"type":null}"#, r#"{"name":"X"}"#, r#"[[]]"#, r#"[{}]"#, r#"{"type":"array","items":"X"}"#, r#""a.b.E""#, r#""R""#, "1.5", "-0", "4294967296", r#""decimal""#, r#""duration""#, r#""\u0000""#, "1e999", "123456789012345678901234567890", r#""\ud800""#, r#""\udc00\ud800""#].map(String::from));
 	v
 }
 
@@ -390,4 +392,103 @@ pub fn wide(kind: usize, n: usize) -> (String, &'static str) {
 		),
 		_ => (format!("[{}]", vec!["\"int\""; n].join(",")), "union of n times \"int\" (not blessed by the specification)"),
 	}
+}
+
+// ------------------------------------------------------------------------------------------
+// lexically valid JSON values that cannot be materialised (or only just can)
+
+/// Values a JSON *lexer* accepts but a parser that builds the value rejects (number literals
+/// outside the f64 range, string escapes with unpaired surrogates), next to harmless relatives
+/// (underflow to 0, an integer beyond u64, a valid surrogate pair, an escaped NUL). A parser
+/// that skips a value sees only the lexical shape; a second pass that materialises it does not.
+pub const ODD_VALUES: [&str; 12] = [
+	"1e999",
+	"-1E+400",
+	"1e-999",
+	"123456789012345678901234567890",
+	"0.1e400",
+	"-0.0e-0",
+	r#""\ud800""#,
+	r#""\udc00""#,
+	r#""\udc00\ud800""#,
+	r#""😀""#,
+	r#""\u0000""#,
+	r#""a\ud800b""#,
+];
+
+/// Positions (hole `@`): ignored attributes of every node kind, nested inside objects / arrays of
+/// an ignored attribute, attribute keys, and the positions the schema model reads.
+pub const ODD_TEMPLATES: [&str; 56] = [
+	// --- ignored attributes, primitive written as an object
+	r#"{"type":"int","default":@}"#,
+	r#"{"type":"int","x-custom":@}"#,
+	r#"{"type":"string","doc":@}"#,
+	r#"{"doc":@,"type":"int"}"#,
+	r#"{"type":"long","logicalType":"timestamp-millis","x":@}"#,
+	// --- record, before and after its fields
+	r#"{"type":"record","name":"R","doc":@,"fields":[]}"#,
+	r#"{"type":"record","name":"R","fields":[{"name":"a","type":"int"}],"x":@}"#,
+	r#"{"type":"record","name":"R","aliases":[@],"fields":[]}"#,
+	// --- record field
+	r#"{"type":"record","name":"R","fields":[{"name":"a","type":"int","default":@}]}"#,
+	r#"{"type":"record","name":"R","fields":[{"name":"a","type":"int","doc":@}]}"#,
+	r#"{"type":"record","name":"R","fields":[{"name":"a","type":"int","aliases":[@,"b"]}]}"#,
+	r#"{"type":"record","name":"R","fields":[{"name":"a","type":"int","order":@}]}"#,
+	r#"{"type":"record","name":"R","fields":[{"default":@,"name":"a","type":"int"},{"name":"b","type":"R2"},{"name":"c","type":{"type":"fixed","name":"R2","size":1}}]}"#,
+	// --- enum (default of an enum is not modelled by the crate), fixed, array, map
+	r#"{"type":"enum","name":"E","symbols":["A"],"doc":@}"#,
+	r#"{"type":"enum","name":"E","symbols":["A"],"default":@}"#,
+	r#"{"type":"enum","name":"E","symbols":["A"],"aliases":[@]}"#,
+	r#"{"type":"fixed","name":"F","size":4,"doc":@}"#,
+	r#"{"type":"fixed","name":"F","size":4,"aliases":[@,"G"]}"#,
+	r#"{"type":"array","items":"int","default":@}"#,
+	r#"{"type":"array","items":"int","default":[@]}"#,
+	r#"{"type":"map","values":"int","default":@}"#,
+	r#"{"type":"map","values":"int","default":{"k":@}}"#,
+	// --- nested inside an object / array of an ignored attribute
+	r#"{"type":"int","meta":{"a":{"b":@}}}"#,
+	r#"{"type":"int","meta":[1,[2,@]]}"#,
+	r#"{"type":"int","meta":{"a":[{"b":@},null]}}"#,
+	r#"{"type":"record","name":"R","fields":[{"name":"a","type":{"type":"array","items":{"type":"map","values":"int","doc":@}}}]}"#,
+	r#"{"type":"record","name":"R","fields":[{"name":"a","type":"int","default":{"x":[@]}}]}"#,
+	r#"["null",{"type":"int","doc":@}]"#,
+	r#"["null",{"type":"record","name":"R","fields":[],"x":{"y":@}}]"#,
+	// --- attribute keys (string values give a key; number values give invalid JSON)
+	r#"{"type":"int",@:1}"#,
+	r#"{@:1,"type":"int"}"#,
+	r#"{"type":"int","meta":{@:1}}"#,
+	r#"{"type":"record","name":"R","fields":[{"name":"a","type":"int",@:0}]}"#,
+	r#"{"type":"enum","name":"E","symbols":["A"],@:[]}"#,
+	// --- positions the schema model reads
+	r#"@"#,
+	r#"{"type":@}"#,
+	r#"["null",@]"#,
+	r#"{"type":"array","items":@}"#,
+	r#"{"type":"map","values":@}"#,
+	r#"{"type":"fixed","name":@,"size":1}"#,
+	r#"{"type":"fixed","name":"F","namespace":@,"size":1}"#,
+	r#"{"type":"fixed","name":"F","size":@}"#,
+	r#"{"type":"enum","name":"E","symbols":[@]}"#,
+	r#"{"type":"enum","name":"E","symbols":["A",@]}"#,
+	r#"{"type":"enum","name":@,"symbols":["A"]}"#,
+	r#"{"type":"record","name":@,"fields":[]}"#,
+	r#"{"type":"record","name":"R","namespace":@,"fields":[]}"#,
+	r#"{"type":"record","name":"R","fields":@}"#,
+	r#"{"type":"record","name":"R","fields":[{"name":@,"type":"int"}]}"#,
+	r#"{"type":"record","name":"R","fields":[{"name":"a","type":@}]}"#,
+	r#"{"type":"bytes","logicalType":"decimal","precision":@,"scale":0}"#,
+	r#"{"type":"bytes","logicalType":"decimal","precision":4,"scale":@}"#,
+	r#"{"type":"int","logicalType":@}"#,
+	r#"{"type":"bytes","logicalType":@,"precision":4,"scale":0}"#,
+	// --- after / around the document
+	r#"{"type":"int"} @"#,
+	r#"[@,"int"]"#,
+];
+
+pub fn odd_count() -> u64 {
+	(ODD_TEMPLATES.len() * ODD_VALUES.len()) as u64
+}
+pub fn odd_case(idx: u64) -> (String, String) {
+	let (t, v) = ((idx as usize) / ODD_VALUES.len(), (idx as usize) % ODD_VALUES.len());
+	(ODD_TEMPLATES[t].replace('@', ODD_VALUES[v]), format!("odd JSON value {} at the hole of template {}", ODD_VALUES[v], ODD_TEMPLATES[t]))
 }
